@@ -134,6 +134,10 @@ var fileGen = rapid.Custom(func(t *rapid.T) File {
 	}
 	f.Name = Name(genName(t))
 	f.Content = genContent(t)
+	// one file in four has a permission mode of its own (none at all, write-only, execute-only, read-only, special bits ...)
+	if rapid.IntRange(0, 3).Draw(t, "hasMode") == 0 {
+		f.Perm = rapid.SampledFrom(FileModes).Draw(t, "mode")
+	}
 	return f
 })
 
@@ -461,6 +465,47 @@ func TestC20TreeRapid(t *testing.T) {
 		st.Report(t, "TestC20TreeRapid", c, v)
 		recordTree(c, info)
 	})
+}
+
+// TestC20TreeModes: systematic trees in which every permission mode of FileModes sits on a file in the source directory
+// and on a file in a sub-directory (empty and non-empty contents), under every filter kind and both values of the
+// recursive flag, in one round and over two rounds with the files rewritten in between. Modes under which the process
+// cannot open a file are put back to 0644 by RunTree (unreadable files are outside the domain).
+func TestC20TreeModes(t *testing.T) {
+	st := vstat.For(prop)
+	shard, shards := vstat.Shard()
+	n := 0
+	for _, filter := range []struct {
+		kind string
+		arg  Name
+	}{{"nil", ""}, {"suffix", ".dat"}, {"dir", "sub"}, {"notdir", "sub"}} {
+		for _, recursive := range []bool{true, false} {
+			for _, rounds := range []int{1, 2} {
+				n++
+				if n%shards != shard {
+					continue
+				}
+				c := TreeCase{Filter: filter.kind, Arg: filter.arg, Recursive: recursive, Dirs: []Dir{{Parent: -1, Name: "sub"}, {Parent: 0, Name: "deep"}}}
+				for i, m := range FileModes {
+					c.Files = append(c.Files,
+						File{Dir: -1, Name: Name("top-" + m + ".dat"), Perm: m, Content: Content{Data: []byte("top " + m)}},
+						File{Dir: i % 2, Name: Name("in-" + m + []string{".dat", ".txt"}[i%2]), Perm: m, Content: Content{Pad: (i % 3) * 3000, Seed: uint64(i)}})
+				}
+				c.Files = append(c.Files, File{Dir: -1, Name: "plain.dat", Content: Content{Data: []byte("plain")}})
+				if rounds == 2 {
+					for i := range c.Files {
+						c.Edits = append(c.Edits, Edit{Of: i, Op: []string{"grow", "rewrite", "shrink", "samelen"}[i%4], Extra: Content{Data: []byte("second round")}})
+					}
+				}
+				info, v := RunTree(c)
+				if info.Infra != "" {
+					t.Fatalf("infra: %s", info.Infra)
+				}
+				st.Report(t, "TestC20TreeModes", c, v)
+				recordTree(c, info)
+			}
+		}
+	}
 }
 
 // TestC20TreeManyFiles: systematic trees with more regular files than the process may open descriptors while ZipFolder
